@@ -12,12 +12,14 @@ for pid in props:
     if pid not in CHECKS:
         continue
     c = CHECKS[pid]
+    drv = open(os.path.join(ROOT, "harness", "drivers", pid.lower() + ".py")).read()
+    has_replay = "def replay(" in drv
     checks.append({
         "property_id": pid,
         "quick_cmd": "./check %s --tier quick" % pid,
         "thorough_cmd": "./check %s --tier thorough" % pid,
         "evidence_file": "/verif/evidence/%s.json" % pid,
-        "replay_cmd_template": "./check %s --replay {path}" % pid,
+        **({"replay_cmd_template": "./check %s --replay {path}" % pid} if has_replay else {}),
         "engine": c.get("engine", "tlc"),
         "level_claimed": {"category": c.get("category", "model_checking"), "text": c["text"], "design_ref": c.get("design_ref", "DESIGN.md §6 " + pid)},
         "level_note": c["note"],
